@@ -19,6 +19,7 @@ import (
 	"strings"
 	"sync"
 
+	"github.com/klauspost/reedsolomon"
 	"github.com/sharedcode/sop"
 	"github.com/sharedcode/sop/fs"
 	"github.com/sharedcode/sop/fs/erasure"
@@ -168,7 +169,7 @@ func shardFile(drive string, id sop.UUID, i int) string {
 // ApplyDamage alters one shard file. Kinds: g | m | t<n> | c<k> | k<j> | z<v>.
 // A body byte is flipped in a bit that depends on the shard index, so that simultaneous flips in several
 // shards never add up to another valid code word (the model's driver uses per-shard deltas with the same property).
-func ApplyDamage(path, kind string, shard int) error {
+func ApplyDamage(path, kind string, shard int, alt, orig func(int) []byte) error {
 	if kind == "g" || kind == "" {
 		return nil
 	}
@@ -186,6 +187,12 @@ func ApplyDamage(path, kind string, shard int) error {
 		}
 		return err
 	}
+	if kind == "o" { // the body of the same shard of ANOTHER blob (first byte changed), old metadata kept
+		if len(b) >= erasure.MetaDataSize {
+			b = append(append([]byte(nil), b[:erasure.MetaDataSize]...), alt(shard)...)
+		}
+		return os.WriteFile(path, b, 0o644)
+	}
 	n, err := strconv.Atoi(kind[1:])
 	if err != nil {
 		return fmt.Errorf("bad damage %q", kind)
@@ -195,9 +202,14 @@ func ApplyDamage(path, kind string, shard int) error {
 		if n < len(b) {
 			b = b[:n]
 		}
-	case 'c': // flip a body byte
+	case 'c': // a body byte becomes the original one with one bit flipped (idempotent)
 		if len(b) > erasure.MetaDataSize {
-			b[erasure.MetaDataSize+n%(len(b)-erasure.MetaDataSize)] ^= byte(1) << (shard % 8)
+			pos := n % (len(b) - erasure.MetaDataSize)
+			if o := orig(shard); pos < len(o) {
+				b[erasure.MetaDataSize+pos] = o[pos] ^ (byte(1) << (shard % 8))
+			} else {
+				b[erasure.MetaDataSize+pos] ^= byte(1) << (shard % 8)
+			}
 		}
 	case 'k': // flip a checksum byte
 		if len(b) >= erasure.MetaDataSize {
@@ -230,6 +242,106 @@ type store struct {
 	fio    *faultIO
 	drives []string
 	ec     *erasure.Erasure
+	rs     reedsolomon.Encoder // same construction as erasure.NewErasure, for accidental()
+}
+
+// accidental reports whether the shard bodies that are present in full length, although at least one of
+// them differs from the original, happen to be mutually consistent (more of them than d, all on one code
+// word). The model's corruption never is (see deltas in lean/Sop/Driver/Ecx.lean); the generated flips
+// must not be either, or the two sides would legitimately disagree. The code is linear, so it is enough
+// to look at the error pattern.
+func (st *store) accidental(d int, orig [][]byte, have [][]byte) bool {
+	n := len(orig)
+	var P []int
+	dirty := false
+	e := make([][]byte, n)
+	for i := 0; i < n; i++ {
+		if have[i] == nil || len(have[i]) != len(orig[i]) {
+			continue
+		}
+		P = append(P, i)
+		e[i] = make([]byte, len(orig[i]))
+		for k := range e[i] {
+			e[i][k] = have[i][k] ^ orig[i][k]
+			if e[i][k] != 0 {
+				dirty = true
+			}
+		}
+	}
+	if !dirty || len(P) <= d {
+		return false
+	}
+	sh := make([][]byte, n)
+	for _, i := range P[:d] {
+		sh[i] = append([]byte(nil), e[i]...)
+	}
+	if err := st.rs.Reconstruct(sh); err != nil {
+		return false
+	}
+	for _, i := range P[d:] {
+		if !bytes.Equal(sh[i], e[i]) {
+			return false
+		}
+	}
+	return true
+}
+
+// damageAll applies one phase of damage; body flips are re-rolled until they are not accidentally consistent.
+func (st *store) damageAll(c Case, dmg []string, id sop.UUID, data []byte, alt func(int) []byte) error {
+	n := c.D + c.P
+	var orig [][]byte
+	if c.Size > 0 {
+		var err error
+		if orig, err = st.ec.Encode(append([]byte(nil), data...)); err != nil {
+			return err
+		}
+	}
+	ob := func(i int) []byte {
+		if i < len(orig) {
+			return orig[i]
+		}
+		return nil
+	}
+	for i, k := range dmg {
+		if err := ApplyDamage(shardFile(st.drives[i], id, i), k, i, alt, ob); err != nil {
+			return err
+		}
+	}
+	last := -1
+	for i, k := range dmg {
+		if k != "" && k[0] == 'c' {
+			last = i
+		}
+	}
+	if last < 0 || c.Size == 0 {
+		return nil
+	}
+	for try := 0; try < 16; try++ {
+		have := make([][]byte, n)
+		for i := 0; i < n; i++ {
+			b, err := os.ReadFile(shardFile(st.drives[i], id, i))
+			if err == nil && len(b) >= erasure.MetaDataSize {
+				have[i] = b[erasure.MetaDataSize:]
+			}
+		}
+		if !st.accidental(c.D, orig, have) {
+			return nil
+		}
+		// flip one more bit of the last flipped shard's body (stays different from the original)
+		p := shardFile(st.drives[last], id, last)
+		b, err := os.ReadFile(p)
+		if err != nil || len(b) <= erasure.MetaDataSize {
+			return nil
+		}
+		var k int
+		fmt.Sscanf(dmg[last][1:], "%d", &k)
+		pos := erasure.MetaDataSize + k%(len(b)-erasure.MetaDataSize)
+		b[pos] = orig[last][pos-erasure.MetaDataSize] ^ byte(3+2*try)
+		if err := os.WriteFile(p, b, 0o644); err != nil {
+			return err
+		}
+	}
+	return fmt.Errorf("could not find a non-accidental corruption for %v", dmg)
 }
 
 var stores = map[string]*store{}
@@ -260,7 +372,11 @@ func storeFor(root string, c Case) (*store, error) {
 	if err != nil {
 		return nil, err
 	}
-	st := &store{bs: bs, fio: fio, drives: drives, ec: ec}
+	rs, err := reedsolomon.New(c.D, c.P)
+	if err != nil {
+		return nil, err
+	}
+	st := &store{bs: bs, fio: fio, drives: drives, ec: ec, rs: rs}
 	stores[key] = st
 	return st, nil
 }
@@ -312,10 +428,17 @@ func runCase(root string, seq int, c Case, emit func(string)) error {
 	if len(c.Dmg) == 0 {
 		return nil
 	}
-	for i, k := range c.Dmg {
-		if err := ApplyDamage(shardFile(drives[i], id, i), k, i); err != nil {
-			return err
+	alt := func(i int) []byte {
+		d2 := append([]byte(nil), data...)
+		d2[0]++
+		sh, err := st.ec.Encode(d2)
+		if err != nil {
+			panic(err)
 		}
+		return sh[i]
+	}
+	if err := st.damageAll(c, c.Dmg, id, data, alt); err != nil {
+		return err
 	}
 	got, err := bs.GetOne(ctx, Table, id)
 	emit("get=" + classify(got, err, data))
@@ -360,10 +483,8 @@ func runCase(root string, seq int, c Case, emit func(string)) error {
 	if len(c.Dmg2) == 0 {
 		return nil
 	}
-	for i, k := range c.Dmg2 {
-		if err := ApplyDamage(shardFile(drives[i], id, i), k, i); err != nil {
-			return err
-		}
+	if err := st.damageAll(c, c.Dmg2, id, data, alt); err != nil {
+		return err
 	}
 	emit(">get2")
 	got, err = bs.GetOne(ctx, Table, id)
